@@ -22,6 +22,7 @@ type mstream struct {
 	opener     string
 	accepted   bool
 	credit     map[string]uint64 // bytes a side may still send
+	initial    map[string]uint64 // the window a side was granted when the stream was established
 	closeWrite map[string]bool
 	close      map[string]bool
 }
@@ -49,6 +50,19 @@ func (m *monitor) credit(side string, sid uint64) (uint64, bool) {
 		return 0, false
 	}
 	return st.credit[side], true
+}
+
+// window reports the send window a side currently holds on a stream and the
+// one it was granted at establishment (known only for established streams that
+// neither side has closed).
+func (m *monitor) window(side string, sid uint64) (credit, initial uint64, known bool) {
+	m.mu.Lock()
+	defer m.mu.Unlock()
+	st := m.streams[sid]
+	if st == nil || !st.accepted || st.close["A"] || st.close["B"] {
+		return 0, 0, false
+	}
+	return st.credit[side], st.initial[side], true
 }
 
 func (m *monitor) flag(class, side string, f frame, why string) {
@@ -87,7 +101,7 @@ func (m *monitor) check(side string, f frame) {
 			return
 		}
 		m.last[side] = f.id
-		m.streams[f.id] = &mstream{opener: side, credit: map[string]uint64{peer: f.value}, closeWrite: map[string]bool{}, close: map[string]bool{}}
+		m.streams[f.id] = &mstream{opener: side, credit: map[string]uint64{peer: f.value}, initial: map[string]uint64{peer: f.value}, closeWrite: map[string]bool{}, close: map[string]bool{}}
 		return
 	}
 	if st == nil {
@@ -107,6 +121,7 @@ func (m *monitor) check(side string, f frame) {
 		}
 		st.accepted = true
 		st.credit[peer] = f.value
+		st.initial[peer] = f.value
 	case kData:
 		if f.length == 0 {
 			m.flag("zero-length-data", side, f, "zero-length data message")
